@@ -209,7 +209,6 @@ Proof.
     + eexists; split; [reflexivity|]. mkR; [lia|lia| |discriminate].
       intro Hm. apply orb_true_iff in Hm as [Hm|Hm]; [specialize (C Hm); lia|].
       specialize (D Hm). congruence.
-    + destruct e; cbn; exact I.
   - (* PCall *) intros f a pos0 pos r (A & B & C & D) X. inversion X; subst; cbn; auto.
     destruct H0 as (L1 & L2 & L3). eexists; split; [reflexivity|].
     mkR; [lia|lia| |discriminate].
@@ -218,21 +217,21 @@ Proof.
   - (* PExit *) intros a pos0 pos r HR X. inversion X; subst. exact I.
   - (* PCont *) intros a pos0 pos r (A & B & C & D) X. inversion X; subst. cbn. intro Hm. specialize (C Hm). lia.
   - (* PIf *) intros c t IHt e IHe a pos0 pos r HR X. inversion X; subst. cbn [chk_s].
-    destruct (chk_b t _) as [ok1 f1] eqn:E1. destruct (chk_b e _) as [ok2 f2] eqn:E2. cbn [fst snd].
     destruct HR as (A & B & C & D).
+    match goal with Hc : cond_val _ c ?v, Hb : exec_b _ pos r |- _ => rename Hc into CV; rename Hb into XB end.
+    assert (HRv : forall bb, v = bb -> R (mkA (noteof a || opt_is (at_eof c) (negb bb)) (moved a)) pos0 pos).
+    { intros bb ->. mkR; auto.
+      intro Hm. apply orb_true_iff in Hm as [Hm|Hm]; [auto|].
+      destruct (is_eof pos) eqn:Ee; [|reflexivity]. exfalso.
+      unfold opt_is in Hm. destruct (at_eof c) as [x|] eqn:Ea; [|discriminate].
+      apply Bool.eqb_prop in Hm. subst x. pose proof (at_eof_sound _ _ _ Ea CV) as Q. destruct bb; discriminate. }
     destruct v.
-    + apply post_join_l. change ok1 with (fst (ok1, f1)). change f1 with (snd (ok1, f1)). rewrite <- E1.
-      eapply IHt; [|exact H5]. mkR; auto.
-      intro Hm. apply orb_true_iff in Hm as [Hm|Hm]; [auto|].
-      destruct (is_eof pos) eqn:Ee; [|reflexivity]. exfalso.
-      unfold opt_is in Hm. destruct (at_eof c) as [x|] eqn:Ea; [|discriminate].
-      apply Bool.eqb_prop in Hm. subst x. pose proof (at_eof_sound _ _ _ Ea H3). discriminate.
-    + apply post_join_r. change ok2 with (fst (ok2, f2)). change f2 with (snd (ok2, f2)). rewrite <- E2.
-      eapply IHe; [|exact H5]. mkR; auto.
-      intro Hm. apply orb_true_iff in Hm as [Hm|Hm]; [auto|].
-      destruct (is_eof pos) eqn:Ee; [|reflexivity]. exfalso.
-      unfold opt_is in Hm. destruct (at_eof c) as [x|] eqn:Ea; [|discriminate].
-      apply Bool.eqb_prop in Hm. subst x. pose proof (at_eof_sound _ _ _ Ea H3). discriminate.
+    + pose proof (IHt _ pos0 pos r (HRv true eq_refl) XB) as P. cbn [negb] in P.
+      destruct (chk_b t _) as [ok1 f1]. destruct (chk_b e _) as [ok2 f2]. cbn [fst snd] in *.
+      apply post_join_l. exact P.
+    + pose proof (IHe _ pos0 pos r (HRv false eq_refl) XB) as P. cbn [negb] in P.
+      destruct (chk_b t _) as [ok1 f1]. destruct (chk_b e _) as [ok2 f2]. cbn [fst snd] in *.
+      apply post_join_r. exact P.
   - (* PLoop *) intros l a pos0 pos r (A & B & C & D) X. inversion X; subst; cbn; auto.
     eexists; split; [reflexivity|]. mkR; [lia|lia| |discriminate].
     intro Hm. specialize (C Hm). lia.
@@ -240,13 +239,15 @@ Proof.
   - (* BCons *) intros s IHs b IHb a pos0 pos r HR X. cbn [chk_b].
     destruct (chk_s s a) as [ok1 f] eqn:E1.
     inversion X; subst.
-    + specialize (IHs a pos0 pos _ HR H1). rewrite E1 in IHs. cbn in IHs. destruct IHs as (a' & -> & HR').
-      destruct (chk_b b a') as [ok2 f2] eqn:E2. cbn [fst snd].
-      specialize (IHb a' pos0 p r HR' H3). rewrite E2 in IHb. cbn [fst snd] in IHb.
-      destruct r as [q| |q]; cbn in *; auto. intro H. apply andb_true_iff in H as [_ H]. auto.
+    + match goal with Hs : exec_s s pos (RFall ?p), Hb : exec_b b ?p r |- _ =>
+        pose proof (IHs a pos0 pos _ HR Hs) as P1; rewrite E1 in P1; cbn in P1; destruct P1 as (a' & -> & HR');
+        pose proof (IHb a' pos0 p r HR' Hb) as P2 end.
+      destruct (chk_b b a') as [ok2 f2]. cbn [fst snd] in *.
+      destruct r as [q| |q]; cbn in *; auto. intro Hk. apply andb_true_iff in Hk as [_ Hk]. auto.
     + destruct f as [a'|]; [destruct (chk_b b a')|]; exact I.
-    + specialize (IHs a pos0 pos _ HR H0). rewrite E1 in IHs. cbn in IHs.
-      destruct f as [a'|]; [destruct (chk_b b a') as [ok2 f2]|]; cbn; intro H; [apply andb_true_iff in H as [H _]|]; auto.
+    + match goal with Hs : exec_s s pos (RCont _) |- _ =>
+        pose proof (IHs a pos0 pos _ HR Hs) as P1; rewrite E1 in P1; cbn in P1 end.
+      destruct f as [a'|]; [destruct (chk_b b a') as [ok2 f2]|]; cbn; intro Hk; [apply andb_true_iff in Hk as [Hk _]|]; auto.
 Qed.
 
 (* one iteration of a checked loop: the guard holds, the body runs; it either leaves the loop or ends
@@ -332,13 +333,13 @@ Fixpoint nest_depths (mx d : nat) (evs : list nest_ev) : list nat :=
        | Leave :: r => nest_depths mx (pred d) r
        end.
 
-Theorem nesting_bounded_gen mx d evs : (d <= mx)%nat -> Forall (fun x => (x <= mx)%nat) (nest_depths mx d evs).
+Theorem nesting_bounded_gen mx d evs : (d < mx)%nat -> Forall (fun x => (x <= mx)%nat) (nest_depths mx d evs).
 Proof.
   revert d; induction evs as [|e r IH]; intros d Hd; cbn [nest_depths].
-  - constructor; [exact Hd|constructor].
-  - constructor; [exact Hd|]. destruct e.
+  - constructor; [lia|constructor].
+  - constructor; [lia|]. destruct e.
     + destruct (mx <=? S d)%nat eqn:E.
-      * constructor; [|constructor]. apply Nat.leb_le in E. lia.
+      * constructor; [|constructor]. lia.
       * apply IH. apply Nat.leb_gt in E. lia.
     + apply IH. lia.
 Qed.
